@@ -291,6 +291,56 @@ func (c *Ctx) WatermarkConversions(prop string, s *Slashing, kind string) {
 							}
 							return false
 						}})
+					if x != nil {
+						// a state updater handed the request (`state.advance(req)`): judged at its call sites, each below
+						// [check(... same request ...) == APPROVED] of a check that only approves bounded values
+						_, _, rb := reqBase(cv.X)
+						if reqP, ok := rb.(*ssa.Parameter); ok && reqP.Parent() == fn {
+							ri := -1
+							for i, q := range fn.Params {
+								if q == reqP {
+									ri = i
+								}
+							}
+							callers := c.staticCallers()[fn]
+							okAll := len(callers) > 0 && ri >= 0
+							for _, K := range callers {
+								if !okAll || ri >= len(K.Common().Args) {
+									okAll = false
+									break
+								}
+								reqArg := K.Common().Args[ri]
+								kt := K.(ssa.Instruction)
+								if y, _ := an.Cut(an.CutQuery{From: an.Entry(K.Parent()), Target: func(i ssa.Instruction) bool { return i == kt },
+									AcceptEdge: func(b *ssa.BasicBlock, i int, a *an.Atom) bool {
+										if a == nil || a.Op != "==" {
+											return false
+										}
+										for _, side := range [][2]ssa.Value{{a.LV, a.RV}, {a.RV, a.LV}} {
+											call := storedCall(side[0])
+											if call == nil || !an.IsConstInt(side[1], s.APPROVED) {
+												continue
+											}
+											cal := call.Call.StaticCallee()
+											if cal == nil || !prog.InModule(cal) || cal.Blocks == nil || !boundedBy(cal, f) {
+												continue
+											}
+											for _, arg := range call.Call.Args {
+												if arg == reqArg || sameValue(arg, reqArg) {
+													return true
+												}
+											}
+										}
+										return false
+									}}); y != nil {
+									okAll = false
+								}
+							}
+							if okAll {
+								x = nil
+							}
+						}
+					}
 					want := "conversion of request " + f + " to int64 is dominated by [" + f + " <= MaxInt64] (directly or via a check that only approves bounded values)"
 					if x != nil {
 						c.R.Fail(ruleN, Fn(fn)+":"+f, c.Pos(ins), "request "+f+" (full uint64 range) is narrowed to int64 without a bound; values >= 2^63 become negative and read back as 'nothing signed'", want, an.PathString(c.Pos, path))
@@ -453,8 +503,8 @@ func (c *Ctx) StateStoreDiscipline(prop string, s *Slashing, kind string) {
 				return false
 			}
 			for _, side := range [][2]ssa.Value{{a.LV, a.RV}, {a.RV, a.LV}} {
-				call, ok := side[0].(*ssa.Call)
-				if ok && an.IsConstInt(side[1], s.APPROVED) && approvalFns[call.Call.StaticCallee()] {
+				call := storedCall(side[0])
+				if call != nil && an.IsConstInt(side[1], s.APPROVED) && approvalFns[call.Call.StaticCallee()] {
 					return true
 				}
 			}
@@ -466,6 +516,56 @@ func (c *Ctx) StateStoreDiscipline(prop string, s *Slashing, kind string) {
 					return s.watermarkAtomS(a, sub, d.Kind, d.StateFld, d.ReqField, d.Strict)
 				})(b, i, a)
 			}})
+		if x != nil {
+			// an updater of the state object (`state.advance(req)`): judged at its call sites - each lies below
+			// [check(... same request ...) == APPROVED] of a function that holds the comparisons
+			if p, isParam := an.Unspill(fa.X).(*ssa.Parameter); isParam && p.Parent() == fn && errResultIndex(fn) < 0 {
+				_, _, rb := reqBase(cv.X)
+				reqP, _ := rb.(*ssa.Parameter)
+				callers := c.staticCallers()[fn]
+				okAll := len(callers) > 0 && reqP != nil
+				for _, K := range callers {
+					if !okAll {
+						break
+					}
+					ri := -1
+					for i, q := range fn.Params {
+						if q == reqP {
+							ri = i
+						}
+					}
+					if ri < 0 || ri >= len(K.Common().Args) {
+						okAll = false
+						break
+					}
+					reqArg := K.Common().Args[ri]
+					kt := K.(ssa.Instruction)
+					if y, _ := an.Cut(an.CutQuery{From: an.Entry(K.Parent()), Target: func(i ssa.Instruction) bool { return i == kt },
+						AcceptEdge: func(b *ssa.BasicBlock, i int, a *an.Atom) bool {
+							if a == nil || a.Op != "==" {
+								return false
+							}
+							for _, side := range [][2]ssa.Value{{a.LV, a.RV}, {a.RV, a.LV}} {
+								call := storedCall(side[0])
+								if call == nil || !an.IsConstInt(side[1], s.APPROVED) || !approvalFns[call.Call.StaticCallee()] {
+									continue
+								}
+								for _, arg := range call.Call.Args {
+									if arg == reqArg || sameValue(arg, reqArg) {
+										return true
+									}
+								}
+							}
+							return false
+						}}); y != nil {
+						okAll = false
+					}
+				}
+				if okAll {
+					x = nil
+				}
+			}
+		}
 		if x != nil {
 			bad++
 			c.R.Fail(rule, Fn(fn)+":"+fs.Field, c.Pos(fs.Store), "the watermark field "+fs.Field+" can be overwritten on a path that has not passed the comparison with its previous value (the watermark could move backwards)", "written only after the "+d.Name+" comparison (or after the check returned APPROVED)", an.PathString(c.Pos, path))
@@ -499,6 +599,49 @@ func (c *Ctx) StateStoreDiscipline(prop string, s *Slashing, kind string) {
 	if bad == 0 {
 		c.R.OK(rule, kind, "-", fmt.Sprintf("%d stores to watermark fields: decoder, 'none' marker, fresh import/export objects, or the request value after the comparison", n))
 	}
+}
+
+// storedCall sees through `res[i] = check(...); ... res[i] ...`: for a load of an element whose only store in the function
+// (same list, same index value) is the result of a call, it returns that call.
+func storedCall(v ssa.Value) *ssa.Call {
+	if call, ok := v.(*ssa.Call); ok {
+		return call
+	}
+	root, idx, ok := elemLoad(v)
+	if !ok {
+		return nil
+	}
+	u := v.(*ssa.UnOp)
+	var found *ssa.Call
+	n := 0
+	for _, b := range u.Parent().Blocks {
+		for _, ins := range b.Instrs {
+			st, ok := ins.(*ssa.Store)
+			if !ok {
+				continue
+			}
+			ia, ok := st.Addr.(*ssa.IndexAddr)
+			if !ok || sliceRootExact(ia.X) != root {
+				continue
+			}
+			if ia.Index != idx {
+				if _, isConst := st.Val.(*ssa.Const); isConst {
+					continue // initialisation of the list with a constant at another index
+				}
+				return nil
+			}
+			if call, ok := st.Val.(*ssa.Call); ok && (b == u.Block() || b.Dominates(u.Block())) {
+				found = call
+				n++
+			} else if _, isConst := st.Val.(*ssa.Const); !isConst {
+				return nil
+			}
+		}
+	}
+	if n == 1 {
+		return found
+	}
+	return nil
 }
 
 // homeProp is the property a shared watermark obligation belongs to, whichever property evaluates it.
